@@ -7,6 +7,7 @@ import Pyunicorn.Lemmas.EventsObject
 import Pyunicorn.Lemmas.EventsF32
 import Pyunicorn.Lemmas.EventsF64
 import Pyunicorn.Lemmas.EventsF64Matrix
+import Pyunicorn.Lemmas.EventsFl
 import Pyunicorn.Lemmas.EventsNpQuantile
 /-!
 # C16 — Event synchronisation / coincidence follow their counting rules
@@ -2065,5 +2066,90 @@ example : (esAnalysisF64 (indexTimes 6)
      [true, true, false], [true, true, true]] 3 none 0 .mean).get none 0 1 ≠ none := by
   decide +kernel
 
+
+/-! ## round 5: the float arithmetic inside the counting of `event_synchronization`
+
+`esR fl` rounds every operation the function applies to times (`ey + lag`, `ex - ey`, `np.diff`)
+by `fl`; `esFl = esSeriesR rn53s` is the call in IEEE double.  The driver answers `esfl` with it;
+the harness compares it bit for bit on dyadic data *and* on time stamps whose sums and
+differences are not representable (where the counts differ from exact arithmetic). -/
+
+/-- the exact-arithmetic model `es`, about which every theorem above speaks, is the instance
+`fl = id` of the rounded model -/
+theorem es_float_model_id (ex ey : List Rat) (tm : Option Rat) (lag : Rat) :
+    esR id ex ey tm lag = es ex ey tm lag := esR_id ex ey tm lag
+
+/-- **no rounding, no difference**: for any rounding function that is the identity on the
+shifted times `t + lag` and on every difference of two of the times `ex ∪ (ey + lag)`, the rounded
+path returns what exact arithmetic returns -/
+theorem es_float_exact (fl : Rat → Rat) (ex ey : List Rat) (tm : Option Rat) (lag : Rat)
+    (hlag : ∀ t ∈ ey, fl (t + lag) = t + lag)
+    (hsub : ∀ a ∈ ex ++ ey.map (· + lag), ∀ b ∈ ex ++ ey.map (· + lag), fl (a - b) = a - b) :
+    esR fl ex ey tm lag = es ex ey tm lag := esR_exact fl ex ey tm lag hlag hsub
+
+/-- **IEEE double rounding is the identity on `k · 2^z`, `|k| < 2⁵³`** (any exponent `z`; the
+model has no under- / overflow) -/
+theorem ieee_exact_on_lattice (k z : Int) (hk : |k| < 2 ^ 53) :
+    rn53s ((k : Rat) * (2 : Rat) ^ z) = (k : Rat) * (2 : Rat) ^ z := rn53s_exact k z hk
+
+/-- **the float path of the call is the exact path on lattice data**: time stamps and lag integer
+multiples of one power of two `2^z` with `|k| ≤ 2⁵⁰` (integer time indices, times given to a fixed
+number of binary places, every float32 record spanning ≤ 26 binary orders) — then
+`event_synchronization` in IEEE double returns exactly what the exact-arithmetic model returns.
+This was the trusted-base item "IEEE arithmetic is exact on the dyadic inputs inside the
+counting". -/
+theorem es_float_lattice (z : Int) (ts1 ts2 : List Rat) (bx by_ : List Bool) (tm : Option Rat)
+    (lag : Rat) (h1 : ∀ t ∈ ts1, OnLat z (2 ^ 50) t) (h2 : ∀ t ∈ ts2, OnLat z (2 ^ 50) t)
+    (hl : OnLat z (2 ^ 50) lag) :
+    esFl ts1 bx ts2 by_ tm lag = esSeries ts1 bx ts2 by_ tm lag :=
+  esR_lattice z _ _ tm lag (fun t ht => h1 t ((select_sublist ts1 bx).subset ht))
+    (fun t ht => h2 t ((select_sublist ts2 by_).subset ht)) hl
+
+/-- **the whole float path on lattice data**: counting in double, `np.sqrt`, `/` — both doubles
+returned equal the doubles of the published formula and lie in `[0,1]` (strictly increasing time
+stamps, records of up to `2²⁴` samples) -/
+theorem es_float_lattice_value (z : Int) (ts1 ts2 : List Rat) (bx by_ : List Bool)
+    (tm : Option Rat) (lag : Rat)
+    (h1 : ∀ t ∈ ts1, OnLat z (2 ^ 50) t) (h2 : ∀ t ∈ ts2, OnLat z (2 ^ 50) t)
+    (hl : OnLat z (2 ^ 50) lag)
+    (hs1 : List.Pairwise (· < ·) ts1) (hs2 : List.Pairwise (· < ·) ts2)
+    (hl1 : ts1.length ≤ 2 ^ 24) (hl2 : ts2.length ≤ 2 ^ 24) :
+    esF64 (esFl ts1 bx ts2 by_ tm lag)
+      = esF64 (esSpec (select ts1 bx) (select ts2 by_) tm lag) ∧
+    ∀ v, ((esF64 (esFl ts1 bx ts2 by_ tm lag)).1 = some v ∨
+          (esF64 (esFl ts1 bx ts2 by_ tm lag)).2 = some v) → 0 ≤ v ∧ v ≤ 1 := by
+  rw [es_float_lattice z ts1 ts2 bx by_ tm lag h1 h2 hl]
+  refine ⟨?_, fun v hv => esSeries_f64_range ts1 ts2 bx by_ tm lag hs1 hs2
+    (norm_le_of_length ts1 ts2 bx by_ hl1 hl2) v hv⟩
+  unfold esSeries
+  rw [es_eq_formula]
+
+/-- non-vacuity of the lattice hypothesis: quarter-spaced time stamps, lag `1/2` -/
+example : ∀ t ∈ [(0 : Rat), 1 / 4, 1 / 2, 3 / 4, 1, 5 / 4], OnLat (-2) (2 ^ 50) t := by
+  intro t ht
+  simp only [List.mem_cons, List.not_mem_nil, or_false] at ht
+  rcases ht with rfl | rfl | rfl | rfl | rfl | rfl
+  · exact ⟨0, by norm_num, by norm_num⟩
+  · exact ⟨1, by norm_num, by norm_num⟩
+  · exact ⟨2, by norm_num, by norm_num⟩
+  · exact ⟨3, by norm_num, by norm_num⟩
+  · exact ⟨4, by norm_num, by norm_num⟩
+  · exact ⟨5, by norm_num, by norm_num⟩
+
+/-- the hypothesis is needed and the rounded model is not the exact one in disguise: on the doubles
+`0.2, 0.1·3, 0.4` against `0.1, 0.2, 0.4` shifted by the double `0.1` exact arithmetic counts
+`(1, 0)`, IEEE double counts `(1/2, 1/2)` — and so does the code (stream `rounding` of the harness) -/
+example :
+    es [3602879701896397 / 18014398509481984, 1351079888211149 / 4503599627370496,
+        3602879701896397 / 9007199254740992]
+       [3602879701896397 / 36028797018963968, 3602879701896397 / 18014398509481984,
+        3602879701896397 / 9007199254740992] none (3602879701896397 / 36028797018963968)
+      = .val 1 0 1 ∧
+    esR rn53s [3602879701896397 / 18014398509481984, 1351079888211149 / 4503599627370496,
+        3602879701896397 / 9007199254740992]
+       [3602879701896397 / 36028797018963968, 3602879701896397 / 18014398509481984,
+        3602879701896397 / 9007199254740992] none (3602879701896397 / 36028797018963968)
+      = .val (1 / 2) (1 / 2) 1 := by
+  constructor <;> decide +kernel
 
 end Pyunicorn.Events
